@@ -1259,6 +1259,11 @@ def expires_after(
     )
 
     def cache_validation_callback(metadata):
+        if "time" not in metadata:
+            # The metadata of this entry are missing (e.g. the process that
+            # stored the result was killed before writing them): its age is
+            # unknown, consider it as expired.
+            return False
         computation_age = time.time() - metadata["time"]
         return computation_age < delta.total_seconds()
 
